@@ -383,16 +383,12 @@ Definition dom_wf (d : domain) : Prop :=
   | DCategorical c _ | DOrdinal c _ | DOrdinalNN c _ => c <> []
   | DFiniteRange lo hi size _ _ => lo <= hi /\ (1 <= size)%Z
   end.
-Definition plain_sampler (d : domain) : bool :=
-  match d with
-  | DFloat _ _ (SQuant _ _) | DInteger _ _ (SQuant _ _) => false
-  | _ => true
-  end.
+(* side conditions of the sampler theorem: the integer log sampler has no clip, so it needs the
+   facts of log/exp; a quantisation factor must be positive *)
 Definition samp_hyp (sl sr : scaling) (d : domain) : Prop :=
   match d with
-  | DFloat lo hi SLogUniform => sc_sample_good sl lo hi
-  | DFloat lo hi SRevLog => sc_sample_good sr lo hi
   | DInteger lo hi SLogUniform => sc_sample_good sl (inject_Z lo) (inject_Z hi)
+  | DInteger _ _ (SQuant _ q) => 0 < q
   | _ => True
   end.
 
@@ -411,34 +407,76 @@ Proof.
   unfold nn_cast_int. intros _ H. destruct (Nat.ltb 1 (length cats)); eapply nth_error_mem_val; exact H.
 Qed.
 
+Lemma sample_float_in sl sr lo hi s r v :
+  lo <= hi -> (forall u, r = RawU u -> 0 <= u /\ u < 1) ->
+  sample_float sl sr lo hi s r = Some v -> lo <= v <= hi.
+Proof.
+  intros Hl Hu H. destruct s; destruct r as [u|i]; simpl in H; try discriminate; injection H as <-.
+  - destruct (Hu u eq_refl). apply affine_in; assumption.
+  - apply Qclip_bounds; assumption.
+  - apply Qclip_bounds; assumption.
+Qed.
+
+Lemma quant_bounds_int_in q lo hi a b :
+  0 < q -> (lo <= hi)%Z -> quant_bounds_int q lo hi = (a, b) ->
+  inject_Z lo <= a /\ a <= b /\ b <= inject_Z hi.
+Proof.
+  intros Hq Hl. unfold quant_bounds_int.
+  destruct (Qleb (inject_Z (Qceiling (inject_Z lo / q)) * q) (inject_Z (Qfloor (inject_Z hi / q)) * q)) eqn:E;
+    intro H; apply pair_equal_spec in H; destruct H as [<- <-].
+  - apply Qleb_true in E. split; [|split; [exact E|]].
+    + pose proof (Qle_ceiling (inject_Z lo / q)) as Hc.
+      assert (inject_Z lo / q * q == inject_Z lo) as Ef by (field; lra).
+      pose proof (Qmult_le_compat_r _ _ q Hc ltac:(lra)). lra.
+    + pose proof (Qfloor_le (inject_Z hi / q)) as Hc.
+      assert (inject_Z hi / q * q == inject_Z hi) as Ef by (field; lra).
+      pose proof (Qmult_le_compat_r _ _ q Hc ltac:(lra)). lra.
+  - apply inject_Z_le in Hl. lra.
+Qed.
+Lemma quantize_int_in q lo hi v : 0 < q -> (lo <= hi)%Z -> (lo <= quantize_int q lo hi v <= hi)%Z.
+Proof.
+  intros Hq Hl. unfold quantize_int. destruct (quant_bounds_int q lo hi) as [a b] eqn:E.
+  apply (quant_bounds_int_in q lo hi a b Hq Hl) in E. destruct E as (E1 & E2 & E3).
+  apply round_he_in_Z. pose proof (Qclip_bounds (quantize q v) a b E2). lra.
+Qed.
+
+(* EVERY sampler, the Quantized wrapper included *)
 Lemma sample_member sl sr d r x :
-  dom_wf d -> plain_sampler d = true -> samp_hyp sl sr d -> raw_ok d r = true ->
+  dom_wf d -> samp_hyp sl sr d -> raw_ok d r = true ->
   dom_sample sl sr d r = Some x -> dom_member sl d x = true.
 Proof.
-  intros Hwf Hp Hh Hr Hs.
-  destruct d as [lo hi s|lo hi s|c s|c s|c ls|lo hi size ls ci]; simpl in *.
+  intros Hwf Hh Hr Hs.
+  destruct d as [lo hi s|lo hi s|c s|c s|c ls|lo hi size ls ci]; simpl in Hwf.
   - (* Float *)
-    destruct s; try discriminate; destruct r as [u|i]; simpl in *; try discriminate;
-      apply andb_true_iff in Hr; destruct Hr as [Hu0 Hu1]; apply Qleb_true in Hu0; apply Qltb_lt in Hu1;
-      injection Hs as <-; apply andb_leb_Q.
-    + apply affine_in; assumption.
-    + apply log_draw_in; assumption.
-    + apply log_draw_in; assumption.
+    assert (forall u, r = RawU u -> 0 <= u /\ u < 1) as Hu.
+    { intros u ->. destruct s; simpl in Hr; apply andb_true_iff in Hr; destruct Hr as [H0 H1];
+        apply Qleb_true in H0; apply Qltb_lt in H1; auto. }
+    destruct s as [| | |s' q]; cbn [dom_sample] in Hs.
+    1-3: match type of Hs with option_map _ ?e = _ => destruct e as [v|] eqn:Ev; [|discriminate] end;
+         injection Hs as <-; simpl; apply andb_leb_Q; eapply sample_float_in; [exact Hwf | exact Hu | exact Ev].
+    destruct (sample_float sl sr lo hi s' r) as [v|]; [|discriminate]. injection Hs as <-.
+    simpl. apply andb_leb_Q. apply Qclip_bounds. exact Hwf.
   - (* Integer *)
-    destruct s; try discriminate; destruct r as [u|i]; simpl in *; try discriminate.
-    + injection Hs as <-. rewrite round_he_inject. exact Hr.
-    + apply andb_true_iff in Hr; destruct Hr as [Hu0 Hu1]; apply Qleb_true in Hu0; apply Qltb_lt in Hu1.
-      injection Hs as <-. rewrite round_he_inject.
+    destruct s as [| | |s' q]; cbn [dom_sample] in Hs; simpl in Hh.
+    + destruct r as [u|i]; simpl in Hs; try discriminate. injection Hs as <-. simpl in *.
+      rewrite round_he_inject. exact Hr.
+    + destruct r as [u|i]; simpl in Hs; try discriminate. injection Hs as <-. simpl in *.
+      apply andb_true_iff in Hr; destruct Hr as [Hu0 Hu1]; apply Qleb_true in Hu0; apply Qltb_lt in Hu1.
+      rewrite round_he_inject.
       pose proof (log_draw_in sl _ _ u Hh Hu0 Hu1) as Hin.
       apply round_he_in_Z in Hin. lia.
-  - destruct s; try discriminate. destruct r; try discriminate.
+    + destruct r; discriminate.
+    + destruct (sample_int sl lo hi s' r) as [v|]; [|discriminate]. injection Hs as <-.
+      simpl. pose proof (quantize_int_in q lo hi v Hh Hwf). lia.
+  - simpl in *. destruct s; try discriminate. destruct r; try discriminate.
     apply nth_error_mem_val in Hs. destruct x; exact Hs.
-  - destruct s; try discriminate. destruct r; try discriminate.
+  - simpl in *. destruct s; try discriminate. destruct r; try discriminate.
     apply nth_error_mem_val in Hs. destruct x; exact Hs.
-  - destruct r; try discriminate. unfold nn_sample in Hs.
-    destruct (Nat.ltb 1 (length c)); [|discriminate].
-    apply nn_cast_int_mem in Hs; [destruct x; exact Hs|]. unfold nn_cats_int. apply map_length.
-  - destruct r; try discriminate. apply nth_error_mem_val in Hs. destruct x; exact Hs.
+  - simpl in *. destruct r; try discriminate. unfold nn_sample in Hs.
+    destruct (Nat.ltb 1 (length c)).
+    + apply nn_cast_int_mem in Hs; [destruct x; exact Hs|]. unfold nn_cats_int. apply map_length.
+    + apply nth_error_mem_val in Hs. destruct x; exact Hs.
+  - simpl in *. destruct r; try discriminate. apply nth_error_mem_val in Hs. destruct x; exact Hs.
 Qed.
 
 (* ================= Quantized ================= *)
@@ -492,30 +530,21 @@ Proof.
   - subst hi. rewrite Z.mul_comm. rewrite (round_he_eq_inject _ _ (quantize_multiple k b Hk)). lia.
 Qed.
 
-Lemma quantized_int_sample_member sl sr lo hi k i :
-  (0 < k)%Z -> (k | lo)%Z -> (k | hi)%Z -> (lo <= i <= hi)%Z ->
-  exists z, dom_sample sl sr (DInteger lo hi (SQuant SUniform (inject_Z k))) (RawI i) = Some (VI z) /\
-            dom_member sl (DInteger lo hi (SQuant SUniform (inject_Z k))) (VI z) = true.
-Proof.
-  intros Hk Hl Hh Hi. eexists. split; [simpl; reflexivity|]. simpl.
-  pose proof (quantized_int_divides k lo hi i Hk Hl Hh Hi). lia.
-Qed.
-
-Lemma quantized_int_refuted :
-  exists lo hi q i, (lo <= i <= hi)%Z /\ 0 < q /\
-    raw_ok (DInteger lo hi (SQuant SUniform q)) (RawI i) = true /\
-    exists z, dom_sample Domain.linear Domain.linear (DInteger lo hi (SQuant SUniform q)) (RawI i) = Some (VI z) /\
-              dom_member Domain.linear (DInteger lo hi (SQuant SUniform q)) (VI z) = false /\ (z < lo)%Z.
-Proof.
-  exists 1%Z, 10%Z, 4, 1%Z. split; [lia|]. split; [reflexivity|]. split; [reflexivity|].
-  exists 0%Z. vm_compute. repeat split.
-Qed.
-
 (* ================= JSON ================= *)
+(* samplers that exist: Uniform / LogUniform, ReverseLogUniform for Float only, and ONE Quantized
+   wrapper around them *)
+Definition json_sampler_ok (is_float : bool) (s : sampler) : Prop :=
+  match s with
+  | SUniform | SLogUniform => True
+  | SRevLog => is_float = true
+  | SQuant (SQuant _ _) _ => False
+  | SQuant SRevLog _ => is_float = true
+  | SQuant _ _ => True
+  end.
 Definition json_ok (d : domain) : Prop :=
   match d with
-  | DFloat lo hi s => lo <= hi /\ (s = SUniform \/ s = SLogUniform)
-  | DInteger lo hi s => (lo <= hi)%Z /\ (s = SUniform \/ s = SLogUniform)
+  | DFloat lo hi s => lo <= hi /\ json_sampler_ok true s
+  | DInteger lo hi s => (lo <= hi)%Z /\ json_sampler_ok false s
   | DCategorical c s | DOrdinal c s => all_same_type c = true /\ s = SUniform
   | DOrdinalNN c _ => all_same_type c = true
   | DFiniteRange lo hi size _ _ => lo <= hi /\ (1 <= size)%Z
@@ -525,25 +554,18 @@ Lemma json_roundtrip_ok base d : 0 < base -> json_ok d -> json_roundtrip base d 
 Proof.
   intros Hb H. apply Qltb_lt in Hb.
   destruct d as [lo hi s|lo hi s|c s|c s|c ls|lo hi size ls ci]; simpl in H.
-  - destruct H as [Hl [->| ->]]; apply Qleb_true in Hl; unfold json_roundtrip; cbn -[Qleb Qltb Z.leb]; rewrite ?Hb; cbn -[Qleb Qltb Z.leb]; rewrite Hl; reflexivity.
-  - destruct H as [Hl [->| ->]]; apply Z.leb_le in Hl; unfold json_roundtrip; cbn -[Qleb Qltb Z.leb]; rewrite ?Hb; cbn -[Qleb Qltb Z.leb]; rewrite Hl; reflexivity.
+  - destruct H as [Hl Hs]. apply Qleb_true in Hl.
+    destruct s as [| | |i q]; [| | |destruct i]; cbn in Hs; try contradiction; try discriminate;
+      unfold json_roundtrip; cbn -[Qleb Qltb Z.leb]; rewrite ?Hb; cbn -[Qleb Qltb Z.leb]; rewrite Hl; reflexivity.
+  - destruct H as [Hl Hs]. apply Z.leb_le in Hl.
+    destruct s as [| | |i q]; [| | |destruct i]; cbn in Hs; try contradiction; try discriminate;
+      unfold json_roundtrip; cbn -[Qleb Qltb Z.leb]; rewrite ?Hb; cbn -[Qleb Qltb Z.leb]; rewrite Hl; reflexivity.
   - destruct H as [Hl ->]. unfold json_roundtrip; cbn -[Qleb Qltb Z.leb all_same_type]. rewrite Hl. reflexivity.
   - destruct H as [Hl ->]. unfold json_roundtrip; cbn -[Qleb Qltb Z.leb all_same_type]. rewrite Hl. reflexivity.
   - unfold json_roundtrip; cbn -[Qleb Qltb Z.leb all_same_type]. rewrite H. reflexivity.
   - destruct H as [Hl Hs]. apply Qleb_true in Hl. apply Z.leb_le in Hs.
     unfold json_roundtrip; cbn -[Qleb Qltb Z.leb all_same_type]. rewrite Hl, Hs. reflexivity.
 Qed.
-
-Lemma json_revlog_refuted base lo hi : 0 < base -> lo <= hi ->
-  json_roundtrip base (DFloat lo hi SRevLog) = Some (DFloat lo hi SLogUniform).
-Proof.
-  intros Hb Hl. apply Qltb_lt in Hb. apply Qleb_true in Hl.
-  unfold json_roundtrip; cbn -[Qleb Qltb Z.leb all_same_type]. rewrite Hb. cbn -[Qleb Qltb Z.leb]. rewrite Hl. reflexivity.
-Qed.
-Lemma json_quantized_refuted base d :
-  (exists lo hi s q, d = DFloat lo hi (SQuant s q)) \/ (exists lo hi s q, d = DInteger lo hi (SQuant s q)) ->
-  json_roundtrip base d = None.
-Proof. intros [(lo & hi & s & q & ->)|(lo & hi & s & q & ->)]; reflexivity. Qed.
 
 (* ================= cast ================= *)
 Lemma fd_values_length r : length (fd_values r) = Z.to_nat (f_size r).
@@ -637,28 +659,171 @@ Proof.
   destruct (val_eqb x y); [eexists; reflexivity|]. simpl in H. destruct (IH x H) as [i ->]. eexists. reflexivity.
 Qed.
 
-Lemma onehot_roundtrip choices x : mem_val x choices = true ->
+Lemma first_tie_spec act best : forall choices v c,
+  first_tie act best choices v = Some c -> mem_val c act = true /\ mem_val c choices = true.
+Proof.
+  induction choices as [|c0 cs IH]; intros [|x xs] c H; simpl in H; try discriminate.
+  destruct (mem_val c0 act && Qeqb x best) eqn:E.
+  - injection H as <-. apply andb_true_iff in E. destruct E as [E _]. split; [exact E|].
+    simpl. rewrite val_eqb_refl. reflexivity.
+  - destruct (IH xs c H) as [H1 H2]. split; [exact H1|]. simpl. rewrite H2. apply orb_true_r.
+Qed.
+Lemma first_tie_exists act best : forall choices v k c,
+  nth_error choices k = Some c -> mem_val c act = true -> (k < length v)%nat -> nth k v 0 == best ->
+  exists c', first_tie act best choices v = Some c'.
+Proof.
+  induction choices as [|a cs IH]; intros v k c Hn Hm Hk He; destruct k; simpl in Hn; try discriminate.
+  - injection Hn as ->. destruct v as [|x xs]; [simpl in Hk; lia|]. simpl in *. rewrite Hm.
+    assert (Qeqb x best = true) as -> by (apply Qeqb_eq; exact He). simpl. eauto.
+  - destruct v as [|x xs]; [simpl in Hk; lia|]. simpl.
+    destruct (mem_val a act && Qeqb x best); [eauto|]. eapply IH; eauto. simpl in Hk. lia.
+Qed.
+Lemma first_tie_zeros act : forall n choices, first_tie act 1 choices (repeat 0 n) = None.
+Proof.
+  induction n as [|n IH]; intros [|c cs]; simpl; auto.
+  assert (Qeqb 0 1 = false) as -> by reflexivity. rewrite andb_false_r. apply IH.
+Qed.
+Lemma first_tie_onehot act : forall n i choices,
+  (forall y, nth_error choices i = Some y -> mem_val y act = false) ->
+  first_tie act 1 choices (onehot i n) = None.
+Proof.
+  induction n as [|n IH]; intros i [|c cs] H; simpl; auto.
+  destruct i; simpl.
+  - rewrite (H c eq_refl). simpl. apply first_tie_zeros.
+  - assert (Qeqb 0 1 = false) as -> by reflexivity. rewrite andb_false_r. apply IH.
+    intros y Hy. apply (H y). exact Hy.
+Qed.
+Lemma nth_onehot : forall n i, (i < n)%nat -> nth i (onehot i n) 0 = 1.
+Proof.
+  induction n as [|n IH]; intros i Hi; [lia|]. destruct i; simpl; [reflexivity|]. apply IH. lia.
+Qed.
+
+(* round trip, with or without active choices (encodings of inactive members decode as before) *)
+Lemma onehot_roundtrip choices active x : mem_val x choices = true ->
   exists e y, onehot_to_nd choices x = Some e /\ length e = length choices /\ Forall unit_itv e /\
-              onehot_from_nd choices e = Some y /\ val_eqb x y = true.
+              onehot_from_nd choices active e = Some y /\ val_eqb x y = true.
 Proof.
   intro Hm. destruct (mem_val_index_of _ _ Hm) as [i Hi].
   destruct (index_of_spec _ _ _ Hi) as (Hlt & y & Hy & Exy).
   exists (onehot i (length choices)), y. unfold onehot_to_nd, onehot_from_nd. rewrite Hi. simpl.
-  rewrite onehot_length, Nat.eqb_refl, argmax_onehot by exact Hlt.
-  repeat split; auto. apply onehot_unit.
+  rewrite onehot_length, Nat.eqb_refl, argmax_onehot by exact Hlt. rewrite Hy.
+  split; [reflexivity|]. split; [reflexivity|]. split; [apply onehot_unit|]. split; [|exact Exy].
+  destruct active as [act|]; [|reflexivity].
+  destruct (mem_val y act) eqn:Ea; [reflexivity|].
+  rewrite nth_onehot by exact Hlt. rewrite first_tie_onehot; [reflexivity|].
+  intros y' Hy'. rewrite Hy in Hy'. injection Hy' as <-. exact Ea.
 Qed.
-Lemma onehot_decode choices v : choices <> [] -> length v = length choices ->
-  exists y, onehot_from_nd choices v = Some y /\ mem_val y choices = true.
-Proof.
-  intros Hne Hlen. unfold onehot_from_nd. rewrite Hlen, Nat.eqb_refl.
-  destruct (nth_error_some_lt choices (argmax v)) as [y Hy].
-  { rewrite <- Hlen. apply argmax_lt. destruct v; [destruct choices; simpl in *; congruence | congruence]. }
-  exists y. split; [exact Hy|]. eapply nth_error_mem_val. exact Hy.
-Qed.
-Lemma onehot_from_nd_length choices v y : onehot_from_nd choices v = Some y -> mem_val y choices = true.
+Lemma onehot_from_nd_mem choices active v y :
+  onehot_from_nd choices active v = Some y -> mem_val y choices = true.
 Proof.
   unfold onehot_from_nd. destruct (Nat.eqb (length v) (length choices)); [|discriminate].
-  apply nth_error_mem_val.
+  destruct (nth_error choices (argmax v)) as [c|] eqn:E; [|destruct active; discriminate].
+  pose proof (nth_error_mem_val _ _ _ E) as Hc.
+  destruct active as [act|]; [|intro H; injection H as <-; exact Hc].
+  destruct (mem_val c act); [intro H; injection H as <-; exact Hc|].
+  destruct (first_tie act (nth (argmax v) v 0) choices v) as [c'|] eqn:T; intro H; injection H as <-.
+  - apply first_tie_spec in T. tauto.
+  - exact Hc.
+Qed.
+Lemma onehot_decode choices active v : choices <> [] -> length v = length choices ->
+  exists y, onehot_from_nd choices active v = Some y /\ mem_val y choices = true.
+Proof.
+  intros Hne Hlen.
+  destruct (nth_error_some_lt choices (argmax v)) as [c Hc].
+  { rewrite <- Hlen. apply argmax_lt. destruct v; [destruct choices; simpl in *; congruence | congruence]. }
+  assert (exists y, onehot_from_nd choices active v = Some y) as [y Hy].
+  { unfold onehot_from_nd. rewrite Hlen, Nat.eqb_refl, Hc. destruct active as [act|]; [|eauto].
+    destruct (mem_val c act); [eauto|]. destruct (first_tie act (nth (argmax v) v 0) choices v); eauto. }
+  exists y. split; [exact Hy | eapply onehot_from_nd_mem; exact Hy].
+Qed.
+
+(* ---- np.argmax returns a position of the maximum ---- *)
+Lemma skipn_cons_nth {A} (d : A) : forall cur (L : list A) x l,
+  skipn cur L = x :: l -> nth cur L d = x /\ skipn (S cur) L = l.
+Proof.
+  induction cur as [|cur IH]; intros L x l H; destruct L as [|a L]; simpl in *; try discriminate.
+  - injection H as -> ->. auto.
+  - apply IH. exact H.
+Qed.
+Lemma skipn_nil_len {A} : forall cur (L : list A), skipn cur L = [] -> (length L <= cur)%nat.
+Proof.
+  induction cur as [|cur IH]; intros [|a L] H; simpl in *; try discriminate; try lia.
+  apply IH in H. lia.
+Qed.
+Lemma argmax_from_spec : forall l L best bi cur,
+  skipn cur L = l -> nth bi L 0 == best -> (forall j, (j < cur)%nat -> nth j L 0 <= best) ->
+  forall j, (j < length L)%nat -> nth j L 0 <= nth (argmax_from best bi cur l) L 0.
+Proof.
+  induction l as [|x l IH]; intros L best bi cur Hs Hb Hall j Hj; simpl.
+  - apply skipn_nil_len in Hs. rewrite Hb. apply Hall. lia.
+  - destruct (skipn_cons_nth 0 cur L x l Hs) as [Hx Hs'].
+    destruct (Qltb best x) eqn:E.
+    + apply Qltb_lt in E. apply (IH L x cur (S cur)); auto.
+      * rewrite Hx. reflexivity.
+      * intros j' Hj'. destruct (Nat.eq_dec j' cur) as [->|Hne]; [rewrite Hx; lra|].
+        assert (j' < cur)%nat as Hlt by lia. specialize (Hall j' Hlt). lra.
+    + apply Qltb_false in E. apply (IH L best bi (S cur)); auto.
+      intros j' Hj'. destruct (Nat.eq_dec j' cur) as [->|Hne]; [rewrite Hx; exact E | apply Hall; lia].
+Qed.
+Lemma argmax_max v j : (j < length v)%nat -> nth j v 0 <= nth (argmax v) v 0.
+Proof.
+  destruct v as [|x r]; [simpl; lia|]. intro Hj. unfold argmax.
+  apply (argmax_from_spec r (x :: r) x 0%nat 1%nat); auto.
+  - simpl. reflexivity.
+  - intros j' Hj'. assert (j' = 0)%nat as -> by lia. simpl. lra.
+Qed.
+
+(* ---- active sub-range of a one-hot block ---- *)
+Lemma count_in_pos act : forall choices, (0 < count_in act choices)%nat ->
+  exists k c, nth_error choices k = Some c /\ mem_val c act = true.
+Proof.
+  unfold count_in. induction choices as [|a cs IH]; simpl; intro H; [lia|].
+  destruct (mem_val a act) eqn:E.
+  - exists 0%nat, a. auto.
+  - destruct (IH H) as (k & c & H1 & H2). exists (S k), c. auto.
+Qed.
+Lemma in_bounds_pointwise (f : val -> Q * Q) : forall choices v,
+  in_bounds (map f choices) v = true ->
+  forall k c, nth_error choices k = Some c ->
+    (k < length v)%nat /\ fst (f c) <= nth k v 0 <= snd (f c).
+Proof.
+  unfold in_bounds. induction choices as [|a cs IH]; intros v H k c Hk; [destruct k; discriminate|].
+  apply andb_true_iff in H. destruct H as [Hl Hf]. apply Nat.eqb_eq in Hl.
+  destruct v as [|x xs]; [simpl in Hl; lia|]. simpl in Hl, Hf.
+  apply andb_true_iff in Hf. destruct Hf as [Hp Hf].
+  destruct k; simpl in Hk.
+  - injection Hk as ->. simpl. split; [lia|]. apply andb_leb_Q. exact Hp.
+  - destruct (IH xs) with (k := k) (c := c) as [H1 H2]; auto.
+    { apply andb_true_iff. split; [apply Nat.eqb_eq; rewrite map_length in *; lia | exact Hf]. }
+    simpl. split; [lia | exact H2].
+Qed.
+
+(* every vector inside get_ndarray_bounds decodes to an ACTIVE category *)
+Lemma onehot_active choices act b v y :
+  onehot_bounds choices (Some act) = Some b -> in_bounds b v = true ->
+  onehot_from_nd choices (Some act) v = Some y -> mem_val y act = true.
+Proof.
+  unfold onehot_bounds. intros Hb Hin Hy.
+  destruct (Nat.ltb 0 (length act) && Nat.eqb (count_in act choices) (length act)) eqn:Hc; [|discriminate].
+  injection Hb as <-. apply andb_true_iff in Hc. destruct Hc as [Hpos Hcnt].
+  apply Nat.ltb_lt in Hpos. apply Nat.eqb_eq in Hcnt.
+  set (nz := if Nat.ltb 1 (length act) then (0, 1) else (1, 1)) in *.
+  set (f := fun c : val => if mem_val c act then nz else (0, 0)) in *.
+  pose proof (in_bounds_pointwise f choices v Hin) as Hpt.
+  assert (0 <= fst nz) as Hnz by (unfold nz; destruct (Nat.ltb 1 (length act)); simpl; lra).
+  unfold onehot_from_nd in Hy.
+  destruct (Nat.eqb (length v) (length choices)) eqn:Hlen; [|discriminate]. apply Nat.eqb_eq in Hlen.
+  destruct (nth_error choices (argmax v)) as [c|] eqn:Ec; [|discriminate].
+  destruct (mem_val c act) eqn:Ea; [injection Hy as <-; exact Ea|].
+  destruct (first_tie act (nth (argmax v) v 0) choices v) as [c'|] eqn:T.
+  - injection Hy as <-. apply first_tie_spec in T. tauto.
+  - exfalso.
+    destruct (count_in_pos act choices ltac:(lia)) as (k & ck & Hk & Hka).
+    destruct (Hpt _ _ Ec) as [_ [_ Hi]]. unfold f in Hi. rewrite Ea in Hi. simpl in Hi.
+    destruct (Hpt _ _ Hk) as [Hkl [Hk0 _]]. unfold f in Hk0. rewrite Hka in Hk0.
+    pose proof (argmax_max v k Hkl) as Hmax.
+    destruct (first_tie_exists act (nth (argmax v) v 0) choices v k ck Hk Hka Hkl) as [c' Hc']; [lra|].
+    congruence.
 Qed.
 
 (* ================= index ranges (binary categorical, ordinal equal) ================= *)
@@ -752,15 +917,15 @@ Proof.
   unfold fr_to_nd, fr_from_nd, fr_map_to_int, fr_map_to_int_pre, fr_map_from_int, fr_map_from_int_pre, f_lo_i, f_hi_i.
   rewrite Hsc, Hci. cbn [to_int from_int sc_dom Domain.linear val_num].
   set (step := f_step r) in *. set (lo := f_lo r) in *. set (hi := f_hi r) in *.
-  rewrite (Qclip_id _ lo hi Hin).
+  rewrite !(Qclip_id _ lo hi Hin).
   destruct (Qeqb step 0) eqn:E0.
   - apply Qeqb_eq in E0.
     destruct (int_roundtrip eps (f_rint r) 0%Z He Hg) as (e & E1 & E2 & E3); [simpl; lia|].
     exists e. rewrite E1, E3. eexists. split; [reflexivity|]. split; [exact E2|]. split; [reflexivity|].
     cbn [val_eqb]. apply Qeqb_eq. rewrite (Qclip_id _ lo hi Hin0). rewrite E0. ring.
   - apply Qeqb_neq in E0.
-    assert (round_he ((Qclip (inject_Z i * step + lo) lo hi - lo) / step) = i) as ->.
-    { apply round_he_eq_inject. rewrite (Qclip_id _ lo hi Hin). field. exact E0. }
+    assert (round_he ((inject_Z i * step + lo - lo) / step) = i) as ->.
+    { apply round_he_eq_inject. field. exact E0. }
     destruct (int_roundtrip eps (f_rint r) i He Hg) as (e & E1 & E2 & E3); [simpl; lia|].
     exists e. rewrite E1, E3. eexists. split; [reflexivity|]. split; [exact E2|]. split; [reflexivity|].
     cbn [val_eqb]. apply Qeqb_eq. rewrite (Qclip_id _ lo hi Hin). reflexivity.
@@ -793,7 +958,7 @@ Proof.
   - destruct v as [|t [|]]; try discriminate. destruct (int_from_nd eps r t) as [z|] eqn:E; [|discriminate].
     injection H as <-. exists z. split; [reflexivity|]. eapply int_decode_member; eauto.
   - destruct v as [|t [|]]; try discriminate. eapply fr_decode_member; eauto.
-  - eapply onehot_from_nd_length; eauto.
+  - eapply onehot_from_nd_mem; eauto.
   - destruct v as [|t [|]]; try discriminate. unfold idx_from_nd in H.
     destruct (int_from_nd eps r t); [|discriminate]. eapply nth_error_mem_val; eauto.
   - destruct v as [|t [|]]; try discriminate. unfold idx_from_nd in H.
@@ -808,7 +973,7 @@ Lemma hp_decode_total eps h v : 0 <= eps -> hp_wf h -> length v = hp_size h -> F
 Proof.
   intros He Hwf Hlen Hu.
   destruct h as [r|r|r|c a|c r|c r|sc c r]; simpl in *;
-    [ | | |destruct (onehot_decode c v Hwf Hlen) as (y & Hy & _); exists y; exact Hy| | | ];
+    [ | | |destruct (onehot_decode c a v Hwf Hlen) as (y & Hy & _); exists y; exact Hy| | | ];
     (destruct v as [|t [|]]; simpl in Hlen; try lia; inversion Hu as [|? ? Ht _]; subst).
   - destruct (cont_decode_total eps r t He Ht) as [x ->]. eexists; reflexivity.
   - destruct (int_decode_total eps r t He Ht) as [x ->]. eexists; reflexivity.
@@ -890,7 +1055,7 @@ Proof.
   - destruct Hok as (Hsc & Hci & Hlh). destruct Hm as (i & Hi & ->).
     destruct (fr_roundtrip_linear eps r i He Hsc Hci Hlh Hi) as (e & y & E1 & E2 & E3 & E4).
     exists [e], y. rewrite E1, E3. simpl. repeat split; auto.
-  - destruct (onehot_roundtrip c x Hm) as (e & y & E1 & E2 & E3 & E4 & E5).
+  - destruct (onehot_roundtrip c a x Hm) as (e & y & E1 & E2 & E3 & E4 & E5).
     exists e, y. repeat split; auto.
   - destruct Hok as (Hsc & Hlo & Hhi).
     destruct (idx_roundtrip eps c r x He Hsc Hlo Hhi Hm) as (e & y & E1 & E2 & E3 & E4).
@@ -925,23 +1090,21 @@ Proof.
   exists e, ys. unfold space_from_nd. rewrite E2, Nat.eqb_refl. auto.
 Qed.
 
-(* ================= refutation witnesses (findings replayed on the real code) ================= *)
-(* categorical one-hot with active choices: the all-zero vector is inside the bounds box
-   and decodes to an inactive category *)
-Lemma onehot_active_zero_refuted :
-  exists choices act b v y,
-    onehot_bounds choices (Some act) = Some b /\ in_bounds b v = true /\
-    onehot_from_nd choices v = Some y /\ mem_val y act = false.
-Proof.
-  exists [VS 0; VS 1; VS 2], [VS 1; VS 2], [(0, 0); (0, 1); (0, 1)], [0; 0; 0], (VS 0).
-  vm_compute. repeat split.
-Qed.
-(* ordinal nearest-neighbour with ONE category: sample and range construction fail *)
-Lemma nn_one_category_refuted sc c u active :
-  nn_sample sc [c] u = None /\ nn_range sc [c] active = None.
+(* ================= statements that were refuted before the fixes in /repo ================= *)
+(* ordinal nearest-neighbour with ONE category: sample returns it, the encoder is the
+   equal-distance ordinal range  [before F-C07-6: nn_sample = None and no range] *)
+Lemma nn_one_category (eps : Q) (sl sr : scaling) (c : val) (ls : bool) (u : Q) :
+  nn_sample (if ls then sl else Domain.linear) [c] u = Some c /\
+  range_of_domain eps sl sr (DOrdinalNN [c] ls) None =
+    Some (HOrdEq [c] {| i_lo := 0; i_hi := 0; i_sc := Domain.linear; i_alo := 0; i_ahi := 0 |}).
 Proof. split; reflexivity. Qed.
-(* finite range: a listed value outside the domain of the scaling (0 for a log range with
-   cast_int) cannot be encoded: to_internal asserts before the value is clipped *)
-Lemma fr_encode_fails_outside_domain eps r x :
-  Qeqb (f_step r) 0 = false -> sc_dom (f_sc r) (val_num x) = false -> fr_to_nd eps r x = None.
-Proof. intros H1 H2. unfold fr_to_nd, fr_map_to_int. rewrite H1, H2. reflexivity. Qed.
+(* finite range: the assert of to_internal cannot fail when the bounds are in the domain of the
+   scaling, whatever value is encoded  [before F-C07-8: it failed for a listed value 0 of a
+   logfinrange with cast_int] *)
+Lemma fr_map_to_int_total r x :
+  f_lo r <= f_hi r -> (forall y, f_lo r <= y <= f_hi r -> sc_dom (f_sc r) y = true) ->
+  exists i, fr_map_to_int r x = Some i.
+Proof.
+  intros Hl Hd. unfold fr_map_to_int. destruct (Qeqb (f_step r) 0); [eauto|].
+  rewrite (Hd _ (Qclip_bounds x _ _ Hl)). eauto.
+Qed.
